@@ -4,6 +4,7 @@ import ALV.Model.C10Call
 import ALV.Model.C12
 import ALV.Spec.C10
 import ALV.Spec.C10Call
+import ALV.Driver.C10Float
 namespace ALV.Driver.C10
 open ALV ALV.J ALV.C10
 
@@ -237,6 +238,7 @@ def handle (entry : String) (j : Json) : Except String Json := do
       let e ← getStr (← field c "entry")
       handleCall e c
     pure <| Json.mkObj [("calls", Json.arr outs)]
+  | "f64" => ALV.Driver.C10Float.handle j
   | _ =>
     match optField j "elem" with
     | some (Json.str "gauss") => handleCallGen gaussCodec kcovarCallNoOrder (fun _ => true) entry j
